@@ -182,6 +182,27 @@ Proof.
     + now apply sel_pinv_r.
   - reflexivity.
 Qed.
+
+Theorem assignments_permuted sizes p (F : list nat -> R) :
+  is_perm p -> length p = length sizes ->
+  Permutation (map (fun a => sel a p) (all_assts sizes)) (all_assts (sel sizes p))
+  /\ sumS o (all_assts (sel sizes p)) F = sumS o (all_assts sizes) (fun a => F (sel a p))
+  /\ (forall a att, length a = length p -> sel (sel a p) att = sel a (map (pfun p) att)).
+Proof.
+  intros H Hl. split; [|split; [now apply sumS_all_assts_perm|intros a att Ha; now apply sel_sel_perm]].
+  apply NoDup_Permutation.
+  - apply NoDup_map_inj; [|apply NoDup_all_assts].
+    intros a b Ha Hb E. apply all_assts_length in Ha, Hb.
+    rewrite <- (sel_pinv_l a p H), <- (sel_pinv_l b p H) by lia. now rewrite E.
+  - apply NoDup_all_assts.
+  - intros y. rewrite in_map_iff. split.
+    + intros (a & <- & Ha). now apply all_assts_sel_perm.
+    + intros Hy. exists (sel y (pinv p)).
+      pose proof (all_assts_length _ _ Hy) as Hly. rewrite sel_length in Hly. split.
+      * now apply sel_pinv_r.
+      * rewrite <- (sel_pinv_l sizes p H) by lia.
+        apply all_assts_sel_perm; trivial; [now apply pinv_is_perm|now rewrite pinv_length, sel_length].
+Qed.
 End PermSum.
 
 Example ex_perm : is_perm [2; 0; 1].
